@@ -1,0 +1,14 @@
+//go:build verif
+// +build verif
+
+package store
+
+// VerifRegister registers a store instance for the url (build tag `verif`),
+// so that NewStore(url) returns it (recording / fault injecting stores).
+func VerifRegister(storeURL string, s Store) {
+	if s == nil {
+		stores.Delete(storeURL)
+		return
+	}
+	stores.Store(storeURL, s)
+}
